@@ -58,6 +58,7 @@ func (p *Prog) TL(level string) (*tlEngine, error) {
 		e.changed = false
 		e.sites = map[string]*tlSite{}
 		e.order = nil
+		e.paramOwned = nil
 		for _, f := range e.fns {
 			var cs []string
 			for c := range e.ctxs[f] {
@@ -82,6 +83,7 @@ func (p *Prog) TL(level string) (*tlEngine, error) {
 		e.changed = false
 		e.sites = map[string]*tlSite{}
 		e.order = nil
+		e.paramOwned = nil
 		for _, f := range e.fns {
 			var cs []string
 			for c := range e.ctxs[f] {
